@@ -25,6 +25,11 @@ func (p *Plenc) Marshal(data []byte, value interface{}) ([]byte, error) {
 		if typ.Kind() == reflect.Map {
 			ptr = *(*unsafe.Pointer)(ptr)
 		}
+	} else if typ.Kind() != reflect.Map && isDirectIface(typ) {
+		// The interface holds the value itself, not a pointer to it. Codecs
+		// (other than map codecs) want a pointer to the value
+		word := ptr
+		ptr = unsafe.Pointer(&word)
 	}
 
 	c, err := p.CodecForType(typ)
